@@ -203,7 +203,12 @@ func (c *Ctx) Cap(s string) {
 
 // Fatalf is a harness error (exit 2): never reported as a violation.
 func (c *Ctx) Fatalf(format string, a ...any) {
-	fmt.Printf("HARNESS-ERROR property=%s %s\n", c.ID, fmt.Sprintf(format, a...))
+	msg := fmt.Sprintf("HARNESS-ERROR property=%s %s\n", c.ID, fmt.Sprintf(format, a...))
+	if IsWorker() {
+		os.Stderr.WriteString(msg) // a worker's stdout may be redirected; the parent prints what it captured
+	} else {
+		fmt.Print(msg)
+	}
 	os.Exit(2)
 }
 
